@@ -470,7 +470,7 @@ impl <N: Numeric> ArrayCreateNumeric<N> for Array<N> {
     fn linspace_a(start: &Self, stop: &Self, num: Option<usize>, endpoint: Option<bool>) -> Result<Self, ArrayError> {
         let start = if start.len()? == 1 { Self::full_like(stop, start[0])? } else { start.clone() };
         let stop = if stop.len()? == 1 { Self::full_like(&start, stop[0])? } else { stop.clone() };
-        assert_eq!(start.get_shape(), stop.get_shape());
+        start.matches_shape(&stop.get_shape()?)?;
         let mut new_shape = vec![num.unwrap_or(50)];
         new_shape.extend(start.get_shape()?.iter().copied());
         new_shape.reverse();
